@@ -255,3 +255,17 @@ Theorem C15_update_unnamed_nonvacuous :
   /\ field_at (d_nodes ParseEx.d) UpdateEx.v1 (f_id ParseEx.fo) = Some (DOpt (Some (SvInt 7%Z))).
 Proof. exact UpdateEx.ex_update. Qed.
 Print Assumptions C15_update_unnamed_nonvacuous.
+
+(** ALL OUTCOMES ON A PRINTED LINE: the derived parser returns the printed value, or reports the generated command's own
+    rejection of the line (or the enum check's) -- never another value, never an error of extraction. *)
+Theorem C15_roundtrip_parse_outcomes : forall d bin vs argv,
+  opt_struct d -> Forall takes_ok (fields_of (d_nodes d)) -> ok_nodes (d_nodes d) vs ->
+  valid (with_bin (derive_cmd d) bin) = true -> print d vs = Some argv ->
+  match derived_parse d (bin :: argv) with
+  | PValue vs' => vs' = vs
+  | PError k => (exists e, parse_top (derive_cmd d) (bin :: argv) = OErr e /\ e_kind e = k)
+                \/ (exists m, parse_top (derive_cmd d) (bin :: argv) = OOk m /\ enum_ok_nodes (d_nodes d) m = false)
+  | PPanic _ | PInvalid => exists o, parse_top (derive_cmd d) (bin :: argv) = o /\ forall m, o <> OOk m
+  end.
+Proof. exact roundtrip_parse_outcomes. Qed.
+Print Assumptions C15_roundtrip_parse_outcomes.
